@@ -81,6 +81,15 @@ def one_case(rng, tier):
                 s_['svc'] = [rng.choice([0, 0, 0.25, 0.75, 1.5]) for _ in range(3)]
     if rng.random() < 0.2:
         case['t0'] = 1.7e9          # a clock that reads like time.time(), not like a stopwatch
+    if rng.random() < 0.15:
+        # the node is cut off from its upstream while it holds elements (they still come out at the tick / timeout) and, in
+        # most cases, connected again later: what it receives then is batched and delivered like before
+        feeder = [s_ for s_ in nodes if s_['id'] == 'tw'][0]['ups'][0]
+        p = prods[0]
+        k = rng.randrange(1, len(p) + 1)
+        p.insert(k, [rng.choice([0, 0, 0.25, 0.5]), '!disconnect', [feeder, 'tw'], 0])
+        if rng.random() < 0.7:
+            p.insert(rng.randrange(k + 1, len(p) + 1), [rng.choice([0.25, 0.5, 1.0, 2.5, 3.0]), '!connect', [feeder, 'tw'], 0])
     return case
 
 
